@@ -44,8 +44,14 @@ Proof. exact receive_checked_rejects_nonextending. Qed.
 Theorem C06_stream_rejects_corrupt : forall s f, op_receive_checked s f false = (Failed, s).
 Proof. exact receive_checked_rejects_corrupt. Qed.
 Theorem C06_forward_rejects_nonextending : forall s f ok,
-  is_snapshot f = false -> extends_pos s f = false -> op_forward s f ok = (Failed, s).
+  extends_pos s f = false -> op_forward s f ok = (Failed, s).
 Proof. exact forward_rejects. Qed.
+(* (until the repair 1e33b6e this needed the hypothesis [is_snapshot f = false]: the endpoint took whole-database
+   files at any position - the hypothesis the proof forced was the defect)  A whole-database file is taken only by a
+   database still at position 0 *)
+Theorem C06_forward_whole_db_only_at_zero : forall s f ok s',
+  is_snapshot f = true -> op_forward s f ok = (Done, s') -> txid s = 0 /\ l_pre f = chk s.
+Proof. exact forward_whole_db_only_at_zero. Qed.
 Theorem C06_forward_rejects_corrupt : forall s f, op_forward s f false = (Failed, s).
 Proof. exact forward_rejects_corrupt. Qed.
 
